@@ -18,8 +18,17 @@ def showRes (s : Bytes) : String :=
     else
       s!"ok v2 src={toHex (canonIP i.srcIP)} dst={toHex (canonIP i.dstIP)} sp={i.srcPort} dp={i.dstPort} addr=ok rest={toHex rest}"
 
+/-- `econn`: as `conn`, but a rejection also reports what the wrapped connection still delivers (`errRest`) -/
+def showResE (s : Bytes) : String :=
+  match parse s with
+  | .err => s!"err rest={toHex (errRest s)}"
+  | _ => showRes s
+
 def stepLine (u : Unit) (ws : List String) : Unit × String :=
   match ws with
+  | ["econn", _, hx] => match fromHex hx with
+    | some b => (u, showResE b)
+    | none => (u, "bad-op")
   | ["conn", hx] => match fromHex hx with
     | some b => (u, showRes b)
     | none => (u, "bad-op")
